@@ -437,7 +437,9 @@ where
                     // every (scenario, planner) is run with a short-step and a long-step parameter set
                     let rot = (ctx.seed as usize + ctx.run - si as usize + [0usize, 3, 1, 4, 2, 5][si as usize % 6]) % 6;
                     let longs = label.ends_with("-fine");
-                    let maxd = if longs { [60.0, 45.0, 80.0, 50.0, 70.0, 40.0][rot] * lvs } else { [5.0, 5.0, 3.0, 0.6, 40.0, 8.0][rot] * lvs };
+                    // the step is tied to the parameter-set index, so that EVERY (scenario, planner) gets a
+                    // short-step run (0.6 lvs) and a medium-step run (5 lvs); radius and bias rotate with the run
+                    let maxd = if longs { [60.0, 45.0, 80.0, 50.0, 70.0, 40.0][rot] * lvs } else { [0.6, 5.0, 40.0, 3.0, 8.0, 5.0][si as usize % 6] * lvs };
                     let radius = [1.5, 0.7, 2.0, 3.0, 0.2, 1.0][rot] * maxd;
                     let bias = [0.05, 0.5, 0.0, 1.0, 0.2, 0.05][rot];
                     // the narrow-cone scenario: steps shorter than the start-goal gap, always toward the goal
